@@ -4,9 +4,10 @@ branch for branch (`cai_causal_graph/graph_components.py`, `cai_causal_graph/cau
 
 * The comparison methods take node / edge *objects*; the values they read are collected in `NodeV` / `EdgeV`
   (an edge object holds references to the two node objects of its graph, so `EdgeV` carries the two `NodeV`s).
-* The list of direction-agnostic edge types is NOT written here: it is `CG.Generated.dontCareDirection`,
-  re-extracted from the source on every run (`harness/srcgen/c07_dontcare.py`) and mapped through
-  `EdgeType.ofText?`.
+* The list of direction-agnostic edge types is written here as a literal; `CG.C07.dontCare_eq` pins it to the table
+  regenerated from the source on every run (`CG.Generated.dontCareDirection`, `harness/srcgen/c07_dontcare.py`). The
+  model does not import the generated module: a table that cannot be regenerated then breaks that obligation, not the
+  driver every check runs.
 * `graphEq deep g h` is the METHOD call `g.__eq__(h, deep)`.  Its class test is `isinstance(other, self.__class__)`,
   so a plain graph accepts a time-series graph as `other` (and then compares it with `Node.__eq__`), while the
   time-series graph refuses the plain one.  The OPERATORS `==` / `!=` (`graphEqOp`, `graphNe`) additionally go
@@ -18,7 +19,6 @@ branch for branch (`cai_causal_graph/graph_components.py`, `cai_causal_graph/cau
 No Mathlib: this file is linked into the driver.
 -/
 import CG.Model.Views
-import CG.Generated.DontCare
 
 namespace CG
 open Std
@@ -26,7 +26,7 @@ open Std
 /-! ### the direction-agnostic list (generated) -/
 
 /-- `dont_care_direction` of `Edge.__eq__` -/
-def dontCare : List EdgeType := Generated.dontCareDirection.filterMap EdgeType.ofText?
+def dontCare : List EdgeType := [.undirected, .bidirected, .unknown]
 
 /-! ### canonical JSON text of a string / an integer (only needed to compare a plain node's metadata with the
     reserved keys of a time-series node; `harness.impl.cj` = `json.dumps(…, ensure_ascii=False)`) -/
